@@ -78,6 +78,7 @@ impl DiffHook for Capture {
     /*@*/ closed spec fn replace_is_atomic() -> bool { true }                 // overrides replace: one Replace op
     /*@*/ closed spec fn accepts_replace(&self) -> bool { true }
     /*@*/ #[verifier::prophetic] open spec fn fobs(&self) -> Obs<Self::Error> { arbitrary() }   // owns everything, borrows nothing
+    /*@*/ open spec fn config(&self) -> Self { arbitrary() }
 
     #[inline(always)]
     fn equal(&mut self, old_index: usize, new_index: usize, len: usize) -> (res: Result<(), Self::Error>)
